@@ -309,7 +309,7 @@ def validate_trace(spec, cfg, trace, metadir, timeout=1800, heap="12g"):
 
 SEG_MARKER = {"Trace_Api.tla": '"ev":"Reset"', "Trace_Sink.tla": '"ev":"KNew"', "Trace_File.tla": '"ev":',
               "Trace_Build.tla": '"ev":"TNew"', "Trace_Aut.tla": '"ev":', "Trace_Lev.tla": '"ev":', "Trace_Merge.tla": '"ev":"Run"',
-              "Trace_Mem.tla": '"ev":', "Trace_Cli.tla": '"ev":', "Trace_Step.tla": '"ev":"LNew"'}
+              "Trace_Mem.tla": '"ev":', "Trace_Cli.tla": '"ev":', "Trace_Graph.tla": '"ev":', "Trace_Step.tla": '"ev":"LNew"'}
 
 
 def segment_bounds(path, d, marker='"ev":"Reset"'):
